@@ -97,6 +97,91 @@ func c14filter(delay time.Duration, n, bound int, go123 bool, slow ...time.Durat
 	return sc
 }
 
+// c14filterStop: the filter's Run loop is stopped (context cancelled) while datagrams are still waiting in it,
+// and optionally started again.  Whatever is forwarded - before the stop, by the stop, or after the restart -
+// leaves no sooner than the delay after its arrival, in arrival order, once; after a restart everything is
+// eventually forwarded (while the filter is stopped nothing is required).
+func c14filterStop(delay time.Duration, n, bound int) *explore.Scenario {
+	name := fmt.Sprintf("delayfilter d=%v n=%d, Run cancelled with datagrams waiting, optionally run again", delay, n)
+	sc := &explore.Scenario{Name: name, Bound: bound}
+	sc.Cfg.Horizon = 30 * time.Second
+	gaps := []time.Duration{0, delay / 2}
+	stops := []time.Duration{0, delay / 2, delay}
+	sc.Make = func() (func(), func(*zzvsched.Exec) (string, *explore.Violation)) {
+		rec := vnet.ZZNewRecNIC()
+		var sentAt []time.Duration
+		var script []string
+		pushed := 0
+		restarted, finished := false, false
+		body := func() {
+			f, err := vnet.NewDelayFilter(rec, delay)
+			if err != nil {
+				panic(err)
+			}
+			ctx, cancel := zzvsched.WithCancel()
+			zzvsched.GoNamed("run", func() { f.Run(ctx) })
+			for i := 0; i < n; i++ {
+				if i > 0 {
+					g := gaps[zzvsched.Choose(len(gaps))]
+					script = append(script, g.String())
+					if g > 0 {
+						zzvsched.Sleep(g)
+					}
+				}
+				sentAt = append(sentAt, zzvsched.Elapsed())
+				vnet.ZZPush(f, vnet.ZZUDPChunk("10.0.0.1:1", "10.0.0.2:2", []byte(fmt.Sprintf("p%d", i))))
+				pushed++
+			}
+			g := stops[zzvsched.Choose(len(stops))]
+			script = append(script, "stop after "+g.String())
+			if g > 0 {
+				zzvsched.Sleep(g)
+			}
+			cancel()
+			zzvsched.WaitIdle() // the loop has seen the cancellation and returned
+			if zzvsched.Choose(2) == 1 {
+				script = append(script, "run again")
+				restarted = true
+				ctx2, _ := zzvsched.WithCancel()
+				zzvsched.GoNamed("run2", func() { f.Run(ctx2) })
+			}
+			finished = true
+		}
+		check := func(ex *zzvsched.Exec) (string, *explore.Violation) {
+			var got []string
+			for _, g := range rec.Got {
+				got = append(got, string(g.Payload))
+			}
+			out := fmt.Sprintf("%v got=%v", script, got)
+			pre := fmt.Sprintf("delay filter %v, %v: ", delay, script)
+			for _, p := range ex.Panics {
+				return out, &explore.Violation{Sig: "C14 panic delayfilter", Msg: pre + "panic: " + p.Value + "\n" + p.Stack}
+			}
+			if ex.HorizonHit {
+				return out + " HORIZON", nil
+			}
+			for i, g := range rec.Got {
+				want := fmt.Sprintf("p%d", i)
+				if string(g.Payload) != want {
+					return out, &explore.Violation{Sig: "C14 order-or-duplicate delayfilter", Msg: pre + fmt.Sprintf("forwarded sequence %v is not the arrival order", got)}
+				}
+				if i < len(sentAt) && g.At < sentAt[i]+delay {
+					return out, &explore.Violation{Sig: "C14 early delayfilter", Msg: pre + fmt.Sprintf("datagram %d arrived at %v and was forwarded at %v, sooner than the delay", i, sentAt[i], g.At)}
+				}
+			}
+			if !finished {
+				return out, &explore.Violation{Sig: "C14 arrival-blocked delayfilter", Msg: pre + fmt.Sprintf("the script blocked for good after %d datagrams: %v", pushed, ex.Parked)}
+			}
+			if restarted && len(rec.Got) != n {
+				return out, &explore.Violation{Sig: "C14 not-forwarded delayfilter", Msg: pre + fmt.Sprintf("%d of %d datagrams were never forwarded although the filter is running again (end of execution at %v)", n-len(rec.Got), n, ex.EndClock)}
+			}
+			return out, nil
+		}
+		return body, check
+	}
+	return sc
+}
+
 // c14filterConc: several arrival paths push into one delay filter at the same time (a router with
 // several senders does exactly this).  Arrival order is only defined between datagrams whose pushes
 // do not overlap: a push that returned before another began is earlier.
@@ -484,12 +569,15 @@ func init() {
 			out = append(out, c14restart(0, 1), c14restart(time.Millisecond, 1))
 			// several arrival paths at once into an idle filter
 			out = append(out, c14filterConc(0, 2, 1, 2), c14filterConc(500*time.Microsecond, 2, 1, 2), c14filterConc(500*time.Microsecond, 2, 2, 1))
+			// the Run loop stopped while datagrams wait, optionally started again
+			out = append(out, c14filterStop(10*time.Millisecond, 2, 2), c14filterStop(500*time.Microsecond, 3, 1))
 			if tier == "thorough" {
+				out = append(out, c14filterStop(10*time.Millisecond, 3, 2), c14filterStop(0, 2, 2))
 				out = append(out, c14filterConc(500*time.Microsecond, 3, 1, 2), c14filterConc(10*time.Millisecond, 2, 2, 2))
 				out = append(out, c14filter(0, 3, 3, false), c14filter(500*time.Microsecond, 3, 3, false), c14router(time.Millisecond, 0, 3, 3))
 			}
 			return out
 		},
-		Rule:        "delay filter: delays {0, 500us, 10ms} x arrival scripts of 3 (thorough 4) datagrams with gaps {0, d/2, d, 2d} x every interleaving of the Run loop, the arrival path and timer expiries within the deviation bound, under legacy and go1.23 channel-timer semantics; 2-3 concurrent arrival paths x 1-2 datagrams into an idle filter (order judged between non-overlapping pushes); router: MinDelay {0,1ms,20ms} x MaxJitter {0,1ms} (jitter draws {0,max-1}) x write gaps x schedules; the router stopped and started again twice, with and without a datagram still on its way (what is written after Start returned must be forwarded); forwarding stamps are taken in a recording NIC on the virtual clock",
+		Rule:        "delay filter: (also: Run cancelled 0/d/2/d after the last arrival while datagrams wait, optionally run again) delays {0, 500us, 10ms} x arrival scripts of 3 (thorough 4) datagrams with gaps {0, d/2, d, 2d} x every interleaving of the Run loop, the arrival path and timer expiries within the deviation bound, under legacy and go1.23 channel-timer semantics; 2-3 concurrent arrival paths x 1-2 datagrams into an idle filter (order judged between non-overlapping pushes); router: MinDelay {0,1ms,20ms} x MaxJitter {0,1ms} (jitter draws {0,max-1}) x write gaps x schedules; the router stopped and started again twice, with and without a datagram still on its way (what is written after Start returned must be forwarded); forwarding stamps are taken in a recording NIC on the virtual clock",
 		Assumptions: []string{"a thread stalled for an arbitrary time is one deviation (the clock may pass a deadline while the loop has not run)", "time.Minute idle re-arms lie beyond the 30 s horizon and never fire"}})
 }
